@@ -69,6 +69,8 @@ def derive_rfield(rng, f, direction='B', pairing=None, allow_compute=True, varia
     mo, cda = pairing
     variable = (rng.random() < 0.3) if variable is None else variable
     fl = 0 if (variable and cda in ('vs', 'lsb')) else L
+    if cda in ('ms', 'ns') and rng.random() < 0.2:
+        fl = 0          # declared variable-length: no size is sent for these actions (RFC 8724 §7.4.2), the index / nothing is
     sd = tv_side or rng.choice('LLLR')
     if mo == 'mm' or cda == 'ms':
         tv = ('m', gen_mapping(rng, v, mixed=mixed_index))
@@ -129,6 +131,26 @@ def near_miss(rng, rule, packet):
         return choice
     d = [edit() for _ in range(rng.choice([1, 1, 2]))]
     return r, '+'.join(d)
+
+def single_miss(rng, rule, packet, kind):
+    """a matching rule with ONE descriptor replaced by one of the given operator that the packet's field does not
+    satisfy (kind: 'eq' target differs in one bit, 'msb' pattern differs in one bit, 'mm' mapping without the value);
+    None when the packet has no non-empty field"""
+    ks = [k for k, f in enumerate(packet['fields']) if len(f['value']) > 2 and k < len(rule['fields'])]
+    if not ks: return None
+    r = copy.deepcopy(rule)
+    k = rng.choice(ks); pf = packet['fields'][k]; v = pf['value'][2:]; L = len(v)
+    i = rng.randrange(L); w = v[:i] + ('1' if v[i] == '0' else '0') + v[i + 1:]
+    f = r['fields'][k]
+    if kind == 'eq':
+        f.update(mo='eq', cda='ns', tv=('b', abuf(w, rng.choice('LLR'))), len=L)
+    elif kind == 'msb':
+        x = rng.randrange(i + 1, L + 1)
+        f.update(mo='msb', cda='lsb', tv=('b', abuf(w[:x], rng.choice('LLR'))), len=rng.choice([L, L, 0]))
+    else:
+        m = [(val, idx) for (val, idx) in gen_mapping(rng, w) if val[2:] != v]
+        f.update(mo='mm', cda='ms', tv=('m', m), len=L)
+    return r
 
 def gen_ruleset(rng, packet, nmax=8, with_default=None, stack_ok=True, allow_compute=True):
     """1..nmax rules with prefix-free ids; some match the packet (different gains), some do not"""
